@@ -267,6 +267,23 @@ fn ops_coq(ops: &[Wop]) -> String {
     })
 }
 
+/// names the schema printer declares: the `write_for` following a `write_for("export type " | "type ")`
+fn declared_schema(ops: &[Wop]) -> Vec<String> {
+    let mut out = vec![];
+    for w in ops.windows(2) {
+        if let (Wop::WF(k, _, _), Wop::WF(n, _, _)) = (&w[0], &w[1]) { if k == "export type " || k == "type " { out.push(n.clone()); } }
+    }
+    out
+}
+/// names the resolvers printer declares: the `write_for` following a `write` that ends in "type "
+fn declared_resolvers(ops: &[Wop]) -> Vec<String> {
+    let mut out = vec![];
+    for w in ops.windows(2) {
+        if let (Wop::W(k), Wop::WF(n, _, _)) = (&w[0], &w[1]) { if k.ends_with("type ") { out.push(n.clone()); } }
+    }
+    out
+}
+
 // ------------------------------------------------------------------ running the printers
 
 fn panic_site(msg: &str) -> u64 {
@@ -277,7 +294,7 @@ fn panic_site(msg: &str) -> u64 {
     else { 99 }
 }
 /// (Coq term of `res (list wop)`, short json, text)
-fn run_schema(doc: &TypeSystemDocument, o: &SOpts) -> (String, J, Option<String>) {
+fn run_schema(doc: &TypeSystemDocument, o: &SOpts) -> (String, J, Option<(String, Vec<Wop>)>) {
     let r = catch(AssertUnwindSafe(|| {
         let mut w = Rec::new();
         let res = SchemaTypePrinter::new(o.to_rust(), &mut w).print_document(doc);
@@ -293,7 +310,7 @@ fn run_schema(doc: &TypeSystemDocument, o: &SOpts) -> (String, J, Option<String>
             (format!("(ErrScalar {} (mkPos {} {} {} {}))", coq_str(&name), num("line"), num("column"), num("file"), coq_bool(builtin)),
              json!({"error": disp}), None)
         }
-        Ok((w, Ok(()))) => (format!("(Ok {})", ops_coq(&w.coalesced())), json!("ok"), Some(w.text())),
+        Ok((w, Ok(()))) => { let c = w.coalesced(); (format!("(Ok {})", ops_coq(&c)), json!("ok"), Some((w.text(), c))) }
     }
 }
 struct ROpts { root: String, output: String, source: String, ns: String }
@@ -305,7 +322,7 @@ impl ROpts {
     fn coq(&self) -> String { format!("(mkROpts {} {} {} {})", coq_str(&self.root), coq_str(&self.output), coq_str(&self.source), coq_str(&self.ns)) }
     fn json(&self) -> J { json!({"rootResolverType": self.root, "resolverOutputType": self.output, "schemaSource": self.source, "schemaRootNamespace": self.ns}) }
 }
-fn run_resolvers(doc: &TypeSystemDocument, o: &ROpts, plugins: usize) -> (String, J, Option<String>) {
+fn run_resolvers(doc: &TypeSystemDocument, o: &ROpts, plugins: usize) -> (String, J, Option<(String, Vec<Wop>)>) {
     let r = catch(AssertUnwindSafe(|| {
         let ps: Vec<Plugin> = (0..plugins).map(|_| Plugin::new(Box::new(ModelPlugin {}))).collect();
         let mut w = Rec::new();
@@ -315,7 +332,7 @@ fn run_resolvers(doc: &TypeSystemDocument, o: &ROpts, plugins: usize) -> (String
     match r {
         Err(msg) => (format!("(Panic {})", coq_n(panic_site(&msg))), json!({"panic": msg}), None),
         Ok((_, Err(e))) => ("(Panic 98%N)".into(), json!({"error": e}), None),
-        Ok((w, Ok(()))) => (format!("(Ok {})", ops_coq(&w.coalesced())), json!("ok"), Some(w.text())),
+        Ok((w, Ok(()))) => { let c = w.coalesced(); (format!("(Ok {})", ops_coq(&c)), json!("ok"), Some((w.text(), c))) }
     }
 }
 
@@ -455,9 +472,9 @@ fn main() {
         for a in args.extra.iter().skip(i + 2) { if let Some((k, v)) = a.split_once('=') { scalars.push((k.into(), ScalarTypeConfig::Single(v.into()))); } }
         let o = SOpts { scalars, meta: "__nitrogql_schema".into(), optional: true, runtime: false };
         let (_, j, text) = run_schema(&doc, &o);
-        println!("--- schema: {j}\n{}", text.unwrap_or_default());
+        println!("--- schema: {j}\n{}", text.map(|x| x.0).unwrap_or_default());
         let (_, j, text) = run_resolvers(&doc, &ROpts { root: "Resolvers".into(), output: "ResolverOutput".into(), source: "schema".into(), ns: "Schema".into() }, 0);
-        println!("--- resolvers: {j}\n{}", text.unwrap_or_default());
+        println!("--- resolvers: {j}\n{}", text.map(|x| x.0).unwrap_or_default());
         return;
     }
     let mut rng = Rng::new(args.seed);
@@ -469,6 +486,7 @@ fn main() {
     let n_valid = if thorough { 2500 } else { 220 };
     let n_malformed = if thorough { 500 } else { 50 };
     let mut samples: Vec<J> = vec![];
+    let mut name_cases: Vec<(String, J)> = vec![];
     for i in 0..(n_valid + n_malformed) {
         let malformed = i >= n_valid;
         let b = build_schema(&mut rng, malformed);
@@ -489,7 +507,16 @@ fn main() {
             let idents: HashSet<&str> = o.scalars.iter().flat_map(|(_, c)| cfg_texts(c)).flat_map(|t| t.split(|c: char| !(c.is_ascii_alphanumeric() || c == '_'))).collect();
             if b.type_names.iter().any(|n| idents.contains(n.as_str())) { bump("runs-with-renamed-local-types"); }
             bump(if j == json!("ok") { "schema-run:ok" } else if j.get("error").is_some() { "schema-run:scalar-error" } else { "schema-run:panic" });
-            if let Some(t) = &text { if t.contains("*\\/") { bump("schema-run:escaped-close-comment"); } }
+            if let Some((t, _)) = &text { if t.contains("*\\/") { bump("schema-run:escaped-close-comment"); } }
+            if let (Some((_, ops)), true) = (&text, valid) {
+                let locals = declared_schema(ops);
+                let texts: Vec<String> = o.scalars.iter().filter(|(k, _)| b.scalar_names.contains(k) || BUILTIN_SCALARS.contains(&k.as_str()))
+                    .flat_map(|(_, c)| cfg_texts(c).into_iter().map(|s| s.to_string()).collect::<Vec<_>>()).collect();
+                name_cases.push((format!("CKeyword {}", coq_list(&locals, |l| coq_str(l))),
+                                 json!({"kind": "keyword-names", "schema": b.text, "declared": locals})));
+                name_cases.push((format!("CCapture {} {}", coq_list(&locals, |l| coq_str(l)), coq_list(&texts, |l| coq_str(l))),
+                                 json!({"kind": "scalar-identifier-capture", "schema": b.text, "options": o.json(), "declared": locals})));
+            }
             sruns.push(format!("({}, {})", o.coq(), term));
             sj.push(json!({"options": o.json(), "result": j}));
         }
@@ -498,7 +525,12 @@ fn main() {
             let plugins = if k == 0 { 0 } else if b.has_model { rng.range(1, 2) } else { 1 };
             let o = if rng.chance(1, 4) { ROpts { root: "R".into(), output: "Out".into(), source: "../gen/sch\"ema".into(), ns: "S".into() } }
                     else { ROpts { root: "Resolvers".into(), output: "ResolverOutput".into(), source: "schema".into(), ns: "Schema".into() } };
-            let (term, j, _) = run_resolvers(&doc, &o, plugins);
+            let (term, j, rtext) = run_resolvers(&doc, &o, plugins);
+            if let (Some((_, ops)), true) = (&rtext, valid) {
+                let aliases = declared_resolvers(ops);
+                name_cases.push((format!("CReserved {} {}", coq_list(&aliases, |l| coq_str(l)), o.coq()),
+                                 json!({"kind": "resolver-file-names", "schema": b.text, "options": o.json(), "declared": aliases})));
+            }
             bump(if j == json!("ok") { "resolver-run:ok" } else { "resolver-run:panic" });
             bump(&format!("resolver-run:plugins={plugins}"));
             rruns.push(format!("({}, {}%nat, {})", o.coq(), plugins, term));
@@ -511,6 +543,9 @@ fn main() {
         if samples.len() < 3 && i % 97 == 0 { samples.push(d.clone()); }
         cases.push(format!("CDoc {} {} [{}] [{}]", coq_bool(valid), ast_coq::tsdoc(&doc), sruns.join("; "), rruns.join("; ")), d);
     }
+    // the declared-name cases are tiny; they follow the documents
+    for _ in 0..name_cases.len() { bump("name-cases"); }
+    for (t, d) in name_cases { cases.push(t, d); }
     // jsdoc on its own: fixed pool + random strings over an adversarial alphabet, packed 70 per case
     let n_js = if thorough { 7000 } else { 1050 };
     let mut batch: Vec<(String, String)> = vec![]; let mut batch_j: Vec<J> = vec![];
